@@ -173,9 +173,8 @@ def _constructed():
     out = {"evals": 0, "nontrivial": 0, "failures": [], "samples": [], "extra": {"single_segment_bins": 0}}
     for fs, S2, iscsd in itertools.product((1.0, 1000.0), (0.3, 40.0), (True, False)):
         pts = [(0.5, n, 1.0, 2.0, 1.0) for n in (1, 2, 7, 1000) for _ in range(3)]
-        r = build_result(fs, S2, iscsd, pts)
         m2 = np.array([m for _ in (1, 2, 7, 1000) for m in (0.0, 1e-9, 2.5)])
-        r._data["M2"] = m2.copy()
+        r = build_result(fs, S2, iscsd, pts, m2=m2.copy())
         n = np.array([p[1] for p in pts], dtype=float)
         want_var = m2 / n
         got = {k: getattr(r, k) for k in ("XY_M2", "XY_emp_var", "XY_emp_dev", "Gxx_emp_dev", "Gxy_emp_dev")}
